@@ -135,8 +135,11 @@ check("C04",
       "Proof: Orch.run models util.sh robsd() (ordered loop, job list, queue-full wait via robsd-wait, barrier, set -e, end) against an adversarial oracle (exit "
       "codes; which jobs each wait reaps). Orch.check states the property on a trace; run_accepted proves every model trace passes it (synchronous start and end only "
       "with nothing running, never more than ncpu running, skipped steps never start, nothing after a synchronous failure); run_result characterises failure exactly "
-      "(first failing non-skipped synchronous step; a failing parallel step never stops the run). Real canvas -d runs (real robsd-wait via a kqueue shim, "
-      "ROBSD_VERIF_NCPU 1-3, adversarial sleeps) are checked against the property directly and by Orch.accepts.",
+      "(first failing non-skipped synchronous step; a failing parallel step never stops the run). Wait.run models robsd-wait.c (pid parsing, the insertion-ordered "
+      "pid map, event batches, the -a loop): without -a it returns after the first batch with exactly the unreported pids in argument order (any_returns_rest), "
+      "with -a only when every pid was reported (all_never_early); dup_hangs shows the duplicate-pid hang. Real canvas runs, with -d and detached (real robsd-wait "
+      "via a kqueue shim, ROBSD_VERIF_NCPU 1-3, adversarial sleeps, step names with '/'), are checked against the property directly and by Orch.accepts; the real "
+      "robsd-wait is run on real child processes and compared with Wait.run.",
       "Partial in one respect: the quantifier over all completion timings is discharged on the model; the implementation is sampled. Trusted: Lean kernel; bash "
       "for ksh and the shims; kqueue shim; hook ROBSD_VERIF_NCPU; harness.",
       "DESIGN.md#c04")
